@@ -254,7 +254,10 @@ class ApiNamespace:
         data_types = set()  # type: typing.Set[UserDefined]
         for route in self.routes:
             data_types |= self.get_route_io_data_types_for_route(route)
-        return sorted(data_types, key=lambda dt: dt.name)
+        # Types of different namespaces may share a name: break the tie so that
+        # the order does not depend on set iteration order.
+        return sorted(data_types,
+                      key=lambda dt: (dt.name, getattr(getattr(dt, 'namespace', None), 'name', '')))
 
     def get_route_io_data_types_for_route(self, route):
         # type: (ApiRoute) -> typing.Set[UserDefined]
